@@ -25,58 +25,58 @@ CHECKS = {
 }
 
 CHECKS.update({
-    "C06": ("explicit-state enumeration of writer targets x buffer lengths executed on the real code; announced size compared with every write outcome",
+    "C06": ("explicit-state enumeration of writer targets x buffer lengths executed on the real code; announced size compared with every write outcome; every packet-builder configuration additionally in the probed flavour (builder queried after every call)",
             "Every writer target (all builders in all API flavours, FCI/chunk/item builders alone, compound member lists, third-party writers; accepted and rejected configurations) is crossed with buffer lengths around the announced size; each write's result is compared with the announcement. Exhaustive inside the bounds.",
             TRUSTED, "3 (C06)"),
-    "C07": ("explicit-state enumeration of accepted writer targets executed on the real code; byte-for-byte comparison with an independent RFC encoder (reference model)",
+    "C07": ("explicit-state enumeration of accepted writer targets executed on the real code; byte-for-byte comparison with an independent RFC encoder (reference model); a configuration without an RFC image that is nevertheless accepted is reported (oversize excepted), and what was written is compared even when the announced size differs",
             "Every representable target's bytes (written into a 0xA5-prefilled buffer) are compared byte for byte with the independent encoder's image (FIR as a multiset of entries, NACK by decode/ordering/minimality). Exhaustive inside the bounds.",
             TRUSTED, "3 (C07)"),
-    "C16": ("explicit-state enumeration of rule-boundary configurations (full products per builder type) executed on the real code; comparison with a reference representability predicate",
+    "C16": ("explicit-state enumeration of rule-boundary configurations (full products per builder type) executed on the real code; comparison with a reference representability predicate; list lengths where an 8/16-bit count wraps (256.., 65536..), prefixes on non-PRIV items, multi-byte texts around the 255-byte limit",
             "Every rule parameter is taken to limit-1/limit/limit+1/type-max in full products per builder type (so all pairs of violated rules occur); calculate_size must accept exactly the representable configurations and name a violated rule otherwise. Oversize packets accepted by five builder types are recorded known findings.",
             TRUSTED, "3 (C16)"),
-    "C17": ("explicit-state enumeration of writer targets x buffer lengths executed on the real code under two complementary prefill patterns",
+    "C17": ("explicit-state enumeration of writer targets x buffer lengths executed on the real code under two complementary prefill patterns; every configuration additionally in the probed flavour, and through the public write_into_unchecked with buffers of n, n+4, n+12 bytes",
             "Each (target, buffer length) is written twice into buffers pre-filled with a position-dependent pattern and its complement; claimed bytes must agree, bytes beyond must keep their prefill, failed writes must leave the buffer untouched. Exhaustive inside the bounds.",
             TRUSTED, "3 (C17)"),
 })
 
 CHECKS.update({
-    "C08": ("exhaustive enumeration of byte strings (header product space, k<=2 byte substitutions of a base set, truncations/extensions) fed to every typed parser of the real code; accepted strings checked against a reference header reader",
+    "C08": ("exhaustive enumeration of byte strings (header product space, k<=2 byte substitutions of a base set, truncations/extensions) fed to every typed parser of the real code; accepted strings checked against a reference header reader; the same judgement applied to every packet handed out by Compound iteration (against its own tile), over giants and all 1-3-tile datagrams as well",
             "Every string of the stated spaces goes through the 7 typed parsers, Packet::parse and Unknown::parse; any acceptance of an ill-framed string, or a header accessor disagreeing with the header bytes, is a violation. Exhaustive inside the bounds.",
             TRUSTED, "3 (C08)"),
-    "C09": ("exhaustive enumeration of reference-encoded packets over walk alphabets and of arbitrary strings; accessor results compared with independent big-endian reads and pointer ranges of the caller's buffer",
+    "C09": ("exhaustive enumeration of reference-encoded packets over walk alphabets and of arbitrary strings; accessor results compared with independent big-endian reads and pointer ranges of the caller's buffer; derived accessors (string forms, header_data) and the utils::parser field readers compared with the primary bytes, also on slices running past the packet; SR/RR with profile-specific extensions; iterator call histories on report_blocks / ssrcs",
             "Well-formed packets from the independent encoder must be accepted and every accessor must equal the reference read at the RFC offset; every returned slice is checked by pointer arithmetic to lie in the input at the expected offset; arbitrary accepted strings get the same scalar and containment checks.",
             TRUSTED, "3 (C09)"),
-    "C10": ("exhaustive enumeration of all SDES-framed strings with short bodies over a small alphabet plus reference-encoded packets and their k<=2 substitutions; three-valued reference tokeniser compared with the real parser on every string",
+    "C10": ("exhaustive enumeration of all SDES-framed strings with short bodies over a small alphabet plus reference-encoded packets and their k<=2 substitutions; three-valued reference tokeniser compared with the real parser on every string; iterator call histories on chunks() / items(); a parsed value must equal a fresh parse after its accessors were called",
             "All SDES bodies of 1-3 words over the stated alphabets (complete), every well-formed SDES of the C03 spaces, and deviations thereof are classified must-accept / must-reject / either / unconstrained by an independent tokeniser and compared with Sdes::parse and its accessors, including chunk lengths.",
             TRUSTED, "3 (C10)"),
-    "C11": ("explicit-state exploration: all tile sequences up to a depth x tail variants and all short byte strings; the real iterator is stepped in lock-step with a two-variable model (tile index, done) on every next() call including calls after exhaustion",
+    "C11": ("explicit-state exploration: all tile sequences up to a depth x tail variants and all short byte strings; the real iterator is stepped in lock-step with a two-variable model (tile index, done) on every next() call including calls after exhaustion; iterator call histories (next / nth / take-count x collect / count / last) on the compound of every 1-3-tile sequence",
             "Compound::parse must accept exactly the strings the reference tiling partitions; tiles+3 calls of next() are compared one by one with the model whose items are Packet::parse of each tile.",
             TRUSTED, "3 (C11)"),
-    "C12": ("exhaustive enumeration of byte strings; generic parser compared with the typed parser named by byte 1, and the full 8x7x6 conversion matrix evaluated on every accepted input",
+    "C12": ("exhaustive enumeration of byte strings; generic parser compared with the typed parser named by byte 1, and the full 8x7x6 conversion matrix evaluated on every accepted input; well-framed strings of unrecognised types must come out as Unknown; every item of every tiled string compared with Packet::parse of its tile",
             "Packet::parse must equal the typed parser's outcome and payload; unknown types must expose the input by pointer identity; every TryFrom / try_as / From conversion is compared with its specification on every accepted input.",
             TRUSTED, "3 (C12)"),
-    "C13": ("exhaustive enumeration packets x all 63 legal paddings applied by an independent reference padder; content accessors of the padded packet compared with those of the unpadded one",
+    "C13": ("exhaustive enumeration packets x all 63 legal paddings applied by an independent reference padder; content accessors of the padded packet compared with those of the unpadded one; also packets of 65280..261888 bytes, SR/RR carrying extensions, padding requested from the crate's own builders, and every padded packet read back through Compound::parse alone and followed by another packet",
             "Every unpadded well-formed packet of the base set and of a stride through every configuration space is padded by the reference padder with every amount 4..=252; acceptance, padding() and all content accessors (blocks, chunks/items, sources/reason, payload, FCI entries) are compared.",
             TRUSTED, "3 (C13)"),
-    "C14": ("explicit-state enumeration of all member lists up to a depth over a 20-kind menu (incl. nested compounds, wrapped and third-party members), all pairs of base-set packets and all lists of up to 3 members at the size limits (262144 / 262140 / 65536 / 65532 bytes) executed on the real code; reference predicate and concatenation oracle, then parse-back in lock-step",
+    "C14": ("explicit-state enumeration of all member lists up to a depth over a 20-kind menu (incl. nested compounds, wrapped and third-party members), all pairs of base-set packets and all lists of up to 3 members at the size limits (262144 / 262140 / 65536 / 65532 bytes) executed on the real code; reference predicate and concatenation oracle, then parse-back in lock-step; every list also added to a compound builder that is queried after every add_packet, and written through write_into_unchecked into a larger buffer",
             "For every list: accept iff the reference predicate says so, size = sum, bytes = concatenation of the members' own images, Compound::parse + iteration yields each leaf equal to the leaf parsed alone.",
             TRUSTED, "3 (C14)"),
-    "C15": ("exhaustive enumeration of FCI words/bodies (quick: 118 PIDs x all 65536 bitmasks; thorough: all 2^32 NACK and SLI words) of all (kind, format, FCI type) gates, of FCI byte strings delimited by padding counts that are not multiples of 4, and of lists up to the 65533-word maximum; reference decoder compared with the real iterators",
+    "C15": ("exhaustive enumeration of FCI words/bodies (quick: 118 PIDs x all 65536 bitmasks; thorough: all 2^32 NACK and SLI words) of all (kind, format, FCI type) gates, of FCI byte strings delimited by padding counts that are not multiples of 4, and of lists up to the 65533-word maximum; reference decoder compared with the real iterators; iterator call histories on Nack::entries / Fir::entries / Sli::lost_macroblocks (with and without a trailing partial entry)",
             "Every explored FCI body is decoded by the real parse_fci + iterators and by the reference decoder; gating is checked for 2 kinds x 32 formats x 5 types; the FCI parsers are also driven directly at every length 0..=40.",
             TRUSTED, "3 (C15)"),
-    "C18": ("exhaustive enumeration of byte strings fed to every parser of the real code; every returned error compared with facts read from the input by a reference header reader",
+    "C18": ("exhaustive enumeration of byte strings fed to every parser of the real code; every returned error compared with facts read from the input by a reference header reader; errors yielded by Compound iteration judged against their own tile; errors of every conversion between packet types (by reference, by value, try_as)",
             "Every Err from the 7 typed parsers, Packet, Unknown, Compound (+iteration), ReportBlock and the 5 FCI parsers is checked for truthfulness of its payload, and the two must-cases (shorter than minimum; length field mismatch) are checked for the exact error.",
             TRUSTED, "3 (C18)"),
 })
 
 CHECKS.update({
-    "C01": ("exhaustive enumeration of byte strings (six input spaces) fed to every public parsing entry point of the real code, every accessor/conversion/iterator called on every accepted value in two orders (all ordered pairs on a subset), with unwind capture, linear step bounds, a per-case watchdog and an allocation cap",
+    "C01": ("exhaustive enumeration of byte strings (six input spaces) fed to every public parsing entry point of the real code, every accessor/conversion/iterator called on every accepted value in two orders (all ordered pairs on a subset), with unwind capture, linear step bounds, a per-case watchdog and an allocation cap; plus iterator call histories (all sequences of next / nth / take-count calls up to a depth x 4 endings) on every iterator reachable from the base set and from every 1-3-tile datagram",
             "No panic, no iterator beyond its linear bound, no hang and no runaway allocation on any string of the stated spaces through any entry point or accessor. Exhaustive inside the bounds; strings outside them are not covered.",
             TRUSTED, "3 (C01)"),
-    "C19": ("exhaustive enumeration of helper parameters, of a 24-member family of third-party packet definitions over the header space, and of Ext / UnknownBuilder configurations executed on the real code; byte-exact helper contracts and a three-valued framing classifier as reference",
+    "C19": ("exhaustive enumeration of helper parameters, of a 24-member family of third-party packet definitions over the header space, and of Ext / UnknownBuilder configurations executed on the real code; byte-exact helper contracts and a three-valued framing classifier as reference; the utils::parser field readers on slices that hold the leading packet exactly or followed by more bytes; UnknownBuilder configurations also reached by setting other values first with the builder queried after every call",
             "The public writer/parser helpers are checked byte-exactly over all paddings, counts and 17 buffer sizes; check_packet::<P> is compared with the framing classifier for 6 type numbers x 4 minimum sizes on every string of the header space; every written third-party / unknown packet is parsed generically, must expose its bytes and convert back intact, also from inside compounds.",
             TRUSTED, "3 (C19)"),
-    "C20": ("history-tree exploration without merging: all sequences of builder method calls up to a depth over a small call alphabet replayed on the real builders and on a trivial model, in four wrapper flavours, compared with the canonical construction of the final state; plus every configuration of the round-trip generator spaces realised in all 16 API flavours (owned/borrowed x 4 wrappers x builder queried after every call or not), each compared with the plain flavour",
+    "C20": ("history-tree exploration without merging: all sequences of builder method calls up to a depth over a small call alphabet replayed on the real builders and on a trivial model, in four wrapper flavours, compared with the canonical construction of the final state; plus every configuration of the round-trip generator spaces realised in all 16 API flavours (owned/borrowed x 4 wrappers x builder queried after every call or not), each compared with the plain flavour; every history replayed again with the intermediate builder queried after every call; get_padding() and the verdict of [this, BYE] compared across flavours",
             "Every call history up to the stated depth (setters in any order with repeats, list adds, owned/borrowed variants, wrapper flavours) must produce the bytes of the canonical construction of its final configuration (FIR up to entry order).",
             TRUSTED, "3 (C20)"),
 })
